@@ -26,6 +26,7 @@ CONSTANTS
   AngVals,    \* angle tokens, 0 is the zero angle
   OptLo0, OptHi, OptLc, OptHc,   \* default bounds of the optional argument ("OptFixed", "TPL")
   OptOff,     \* "OptDim": default lower bound is (dim + OptOff)/2, closed
+  InitLen,    \* length scale at construction (1.0 = 64 except for the lattice restricted class "TPLHL")
   CustomB,    \* function: argument name -> set of custom bounds records
   MaxCustom   \* at most this many arguments carry custom bounds (keeps the model small)
 
@@ -68,13 +69,16 @@ ModelAngles(d, s) ==
    "TPL":  H = 1/2 fixed, optional argument = len_low  ->  len/rescale
    "TPLH": len_low = 0, optional argument = H in {1/4 (=16), 1/2 (=32)}; H = 1/4 -> 2 sqrt(len/rescale),
            evaluated on len/rescale in {1/4, 1, 4} where the square root is exact *)
-SqrtQ(q) == CASE q = 16 -> 32 [] q = 64 -> 64 [] q = 256 -> 128
+SqrtQ(q) == CASE q = 16 -> 32 [] q = 64 -> 64 [] q = 256 -> 128 [] q = 144 -> 96 [] q = 400 -> 160
               [] OTHER -> Assert(FALSE, <<"inexact square root", q>>)
+LenLowQ == IF Cls = "TPLHL" THEN 16 ELSE 0      \* "TPLHL": as "TPLH" with the lower truncation fixed at 1/4
 VarFac(o, l, r) == CASE Cls = "TPL" -> Div(l, r)
-                     [] Cls = "TPLH" -> (CASE o = 32 -> Div(l, r) [] o = 16 -> 2 * SqrtQ(Div(l, r))
-                                           [] OTHER -> U)   \* other Hurst values are never in bounds in the models used
+                     [] Cls \in {"TPLH", "TPLHL"} ->
+                          (CASE o = 32 -> Div(l, r)
+                             [] o = 16 -> 2 * (SqrtQ(Div(LenLowQ + l, r)) - (IF LenLowQ = 0 THEN 0 ELSE SqrtQ(Div(LenLowQ, r))))
+                             [] OTHER -> U)   \* other Hurst values are never in bounds in the models used
                      [] OTHER -> U
-IsTPL == Cls \in {"TPL", "TPLH"}
+IsTPL == Cls \in {"TPL", "TPLH", "TPLHL"}
 VarOfO(vr, l, r, o) == IF IsTPL /\ l > 0 THEN Mul(vr, VarFac(o, l, r)) ELSE vr
 RawOfO(v, l, r, o)  == IF IsTPL THEN Div(v, VarFac(o, l, r)) ELSE v
 VarOf(vr, l, r) == VarOfO(vr, l, r, opt)
@@ -112,7 +116,7 @@ InitDims == IF LatLon THEN {3 + (IF Temporal THEN 1 ELSE 0)} ELSE Dims
 
 Init ==
   /\ dim \in InitDims
-  /\ len = U /\ anis = Ones(dim - 1) /\ angles = Zeros(NoAng(dim))
+  /\ len = InitLen /\ anis = Ones(dim - 1) /\ angles = Zeros(NoAng(dim))
   /\ varRaw = U /\ nugget = 0 /\ rescale = U
   /\ opt \in (IF HasOpt THEN {o \in OptVals : InB(OptDefault(dim), o)} ELSE {0})
   /\ bnd = DefaultB(dim) /\ custom = {}
@@ -211,9 +215,10 @@ SetRescale(r) ==
    classes whose integral scale is len_scale / rescale (Exponential family) *)
 SetIntScale(is) ==   \* is: sequence of length >= 1
   /\ Live /\ Cls = "Plain" /\ op' = [name |-> "SetIntScale", s |-> is]
-  \* the setter passes through intermediate length scales; its interplay with user defined
-  \* length-scale bounds is left unmodelled
-  /\ "len_scale" \notin custom
+  \* the setter passes through intermediate length scales (the requested integral scale itself and 1);
+  \* with user defined length-scale bounds the call is only modelled when those intermediates are
+  \* inside the bounds - the final length scale is then subject to the bounds like any other
+  /\ ("len_scale" \in custom => InB(bnd["len_scale"], is[1]) /\ InB(bnd["len_scale"], U))
   /\ IF is[1] <= 0
      THEN /\ status' = "Rejected" /\ UNCHANGED <<len, anis>>
      ELSE /\ IF Len(is) = 1 \/ dim = 1
@@ -248,6 +253,19 @@ SetBounds(a, b, check) ==
   /\ status' = Verdict(bnd', varRaw', len', anis', nugget', rescale, opt')
   /\ UNCHANGED <<dim, angles, rescale>>
 
+(* set_arg_bounds(var = bv, len_scale = bl) in ONE call (check_args = True): both bounds are installed,
+   an out-of-bounds length scale is replaced first, the variance is checked and reset LAST ("set var
+   last like always"), i.e. against the variance that results from the new length scale *)
+SetBounds2(bv, bl) ==
+  /\ Live /\ custom = {}     \* with earlier custom bounds the intermediate states of the call may already be rejected: unmodelled
+  /\ op' = [name |-> "SetBounds2", bv |-> bv, bl |-> bl]
+  /\ bnd' = [bnd EXCEPT !["var"] = bv, !["len_scale"] = bl]
+  /\ custom' = custom \cup {"var", "len_scale"}
+  /\ len' = IF InB(bl, len) THEN len ELSE DefFrom(bl)
+  /\ varRaw' = IF InB(bv, VarOf(varRaw, len', rescale)) THEN varRaw ELSE RawOf(DefFrom(bv), len', rescale)
+  /\ status' = Verdict(bnd', varRaw', len', anis, nugget, rescale, opt)
+  /\ UNCHANGED <<dim, anis, angles, nugget, rescale, opt>>
+
 -----------------------------------------------------------------------------
 SeqsOf(S, lo, hi) == UNION {[1..n -> S] : n \in lo..hi}
 
@@ -264,6 +282,8 @@ Next ==
   \/ \E r \in RescaleVals : SetRescale(r)
   \/ \E is \in SeqsOf(IntVals, 1, 2) : (\A i \in 2..Len(is) : is[i] > 0) /\ SetIntScale(is)
   \/ \E a \in DOMAIN CustomB : \E b \in CustomB[a] : \E c \in BOOLEAN : SetBounds(a, b, c)
+  \/ ({"var", "len_scale"} \subseteq DOMAIN CustomB /\
+      \E bv \in CustomB["var"], bl \in CustomB["len_scale"] : SetBounds2(bv, bl))
 
 Spec == Init /\ [][Next]_vars
 
